@@ -424,6 +424,8 @@ func vTwinsOps() []vOp {
 	return []vOp{
 		{q: `{ items { ... on Ebook { id title pages } ... on EBook { title size } } }`},
 		{q: `{ items { ... on Ebook { title pages } ... on EBook { id size } } }`},
+		// lists the gateway sorts by name, with names that differ by case only
+		{q: `{ __schema { types { name kind } } }`},
 	}
 }
 
